@@ -130,11 +130,11 @@ Proof. intros W s k r I P. apply (l_A (I_loc I k)). rewrite P. reflexivity. Qed.
 
 Lemma check_cases' : forall W s j i,
   (nth_error (deps W j) i = None /\ check W all_fixed s j i = s) \/
-  exists d r' w, nth_error (deps W j) i = Some d /\ check_l true (jobs s j) i (dep_status s d) = (r', w) /\
+  exists d r' w, nth_error (deps W j) i = Some d /\ check_l true true (jobs s j) i (dep_status s d) = (r', w) /\
     check W all_fixed s j i = (if w then enqueue (setjob s j r') (CStep j) else setjob s j r').
 Proof.
   intros. unfold check. destruct (nth_error (deps W j) i) as [d|] eqn:N; auto.
-  right. simpl. destruct (check_l true (jobs s j) i (dep_status s d)) as [r' w] eqn:C.
+  right. simpl. destruct (check_l true true (jobs s j) i (dep_status s d)) as [r' w] eqn:C.
   exists d, r', w. auto.
 Qed.
 
@@ -409,7 +409,7 @@ Lemma liv_spawn : forall W s j, wf W = true -> LivQ W s (fun c => In c (queue s)
 Proof.
   intros W s j WF L I P. unfold run_spawn. simpl fx3. rewrite <- adopted_some.
   set (r := jobs s j) in *. set (news := map (dep_status s) (deps W j)).
-  set (p := spawn_l true (j_marker (spec W j)) (is_some_b (adopted W j)) r news).
+  set (p := spawn_l true true (j_marker (spec W j)) (is_some_b (adopted W j)) r news).
   pose proof (I_loc I j) as L0. unfold jl in L0. fold r in L0.
   assert (Len : length news = length (deps W j)) by (apply map_length).
   destruct (@spawn_l_ok (deps W j) (j_marker (spec W j)) (j_code (spec W j)) (adopted W j) r news L0 P Len)
